@@ -214,6 +214,24 @@ def corpus(ctx, rng):
     for ff in (["AMBER"] if ctx.quick else ffs):
         jobs.append({"what": f"three peptides one chain id ff={ff}", "text": gen.pdb_text([a + b + c]), "args": [f"--ff={ff}"],
                      "truth": tr, "strands": []})
+    # a protonated model (first run, --pdb-output) re-assigned with --assign-only: the states are the given ones; histidines
+    # are also given under the plain name HIS (both ring hydrogens = HIP, one = HID / HIE)
+    for seq in (["ALA", "HIP", "ALA"], ["ALA", "HID", "ALA"], ["ALA", "HIE", "ALA"], ["HIP", "ALA", "HIP"], ["HID", "ASH", "LYS", "GLH", "HIE"],
+                ["ALA", "CYM", "TYR", "LYN", "ALA"]):
+        chains = [gen.peptide([s if s in gen.definitions().map else BASE_OF[s] for s in seq], names=seq)]
+        for ff in (["AMBER"] if ctx.quick else ["AMBER", "PARSE", "CHARMM"]):
+            for rename in ({}, {"HIP": "HIS", "HID": "HIS", "HIE": "HIS"}):
+                if not rename or any(x in rename for x in seq):
+                    jobs.append({"what": f"assign-only on protonated {'-'.join(seq)} ff={ff} renamed={sorted(rename)}", "text": gen.pdb_text(chains),
+                                 "args": [f"--ff={ff}", "--assign-only"], "prerun": [f"--ff={ff}"], "rename": rename,
+                                 "truth": truth(chains), "strands": []})
+    # many chains without chain identifiers (TER-separated)
+    for nch in ([5, 63] if ctx.quick else [2, 5, 26, 52, 62, 63, 64, 70]):
+        for oxt in (True, False):
+            chains = [gen.transform(gen.peptide([gen.AMINO[(c + j) % 20] for j in range(3)], chain="", start=1 + 3 * c, oxt=oxt), t=(0, 0, 12.0 * c))
+                      for c in range(nch)]
+            jobs.append({"what": f"{nch} chains without identifier{'' if oxt else ', no OXT'}", "text": gen.pdb_text(chains),
+                         "args": ["--ff=AMBER", "--noopt", "--nodebump"], "truth": truth(chains), "strands": []})
     # the repository's cyclic peptide: no termini at all
     cyc_text = open(os.path.join(DATA, "5vav_cyclic_peptide.pdb")).read()
     tr = []
@@ -237,6 +255,18 @@ def _pipe_job(job):
     wd = os.path.join(core.VERIF, ".work", f"c02-{os.getpid()}")
     os.makedirs(wd, exist_ok=True)
     open(os.path.join(wd, "in.pdb"), "w").write(job["text"])
+    if job.get("prerun") is not None:
+        # two-run history: protonate, write the model as PDB, give that to the run under test
+        r0 = runner.run(job["prerun"] + [f"--pdb-output={os.path.join(wd, 'pre_H.pdb')}", os.path.join(wd, "in.pdb"), os.path.join(wd, "pre.pqr")])
+        if not r0["ok"]:
+            shutil.rmtree(wd, ignore_errors=True)
+            return {"ok": False, "exc": "prerun:" + str(r0["exc_type"]), "msg": "", "res": [], "total": 0, "strands": []}
+        lines = []
+        for ln in open(os.path.join(wd, "pre_H.pdb")).read().split("\n"):
+            if ln.startswith(("ATOM", "HETATM")) and ln[17:20] in job.get("rename", {}):
+                ln = ln[:17] + job["rename"][ln[17:20]] + ln[20:]
+            lines.append(ln)
+        open(os.path.join(wd, "in.pdb"), "w").write("\n".join(lines))
     r = runner.run(job["args"] + [os.path.join(wd, "in.pdb"), os.path.join(wd, "o.pqr")])
     out = {"ok": r["ok"], "exc": r["exc_type"], "msg": str(r["exc"])[:100] if r["exc"] else "", "res": [], "total": 0, "strands": []}
     if r["ok"]:
